@@ -11,7 +11,7 @@ from pyvc.val import SV, Obj, MList
 from pyvc.contract import Contract, Args
 from pyvc.spec import *   # noqa
 from . import lib_graphql as GQ
-from .c06_input_types import name_, sub, opt, sd, in_map, SCALAR_DATA, SC, K, const, call
+from .c06_input_types import name_, sub, opt, sd, in_map, SCALAR_DATA, SC, K, const, call, SPEC_SIMPLE_TYPE_MAP
 from ariadne_codegen.client_generators import result_fields as RF
 
 V.REG.register(RF.RelatedClassData, ["class_name", "type_name"])
@@ -42,10 +42,10 @@ related_of = z3.RecFunction("related_of", V.Val, V.Val, z3.BoolSort(), V.VL)
 _t, _n, _cn, _atn, _sc = z3.Const("t", V.Val), z3.Bool("n"), z3.Const("cn", V.Val), z3.Bool("atn"), z3.Const("sc", V.Val)
 _nm = GQ.name_of(_t)
 _cls_name = z3.If(_atn, z3.Concat(V.vs(_cn), V.vs(_nm)), V.vs(_cn))
-_configured = z3.And(z3.Not(in_strs(_nm, list(K.SIMPLE_TYPE_MAP))), has(_sc, _nm))
+_configured = z3.And(z3.Not(in_strs(_nm, list(SPEC_SIMPLE_TYPE_MAP))), has(_sc, _nm))
 z3.RecAddDefinition(img_out, [_t, _n, _cn, _atn, _sc],
     z3.If(GQ.is_cls(_t, GQ.SCALAR),
-          z3.If(in_strs(_nm, list(K.SIMPLE_TYPE_MAP)), opt(_n, in_map(_nm, K.SIMPLE_TYPE_MAP)),
+          z3.If(in_strs(_nm, list(SPEC_SIMPLE_TYPE_MAP)), opt(_n, in_map(_nm, SPEC_SIMPLE_TYPE_MAP)),
                 z3.If(has(_sc, _nm), opt(_n, result_scalar_ann(get(_sc, _nm))), opt(_n, name_(K.ANY)))),
     z3.If(GQ.is_cls(_t, GQ.OBJECT), opt(_n, name_(quoted(_cls_name))),
     z3.If(GQ.is_cls(_t, GQ.ENUM), opt(_n, name_(_nm)),
